@@ -166,7 +166,16 @@ DoAttach == /\ phase = "eval" /\ Len(evhist) < EvalDepth
                  /\ evhist' = Append(evhist, [a |-> "attach", target |-> tg])
             /\ UNCHANGED <<src, l1, hist, rel, ref, phase, evals>>
 
-Next == Build \/ StartEval \/ DoProcess \/ DoProcessAgain \/ DoExec \/ DoAttach
+\* users keep building on the tree a process() call returned: cached = processed.materialized("mw"),
+\* then process(cached).  The payload state of the INPUT tree is not touched; what is demanded of the
+\* new materialization is WrapSound below (finding F27).
+DoWrap == /\ phase = "eval" /\ Len(evhist) < EvalDepth
+          /\ evhist # <<>> /\ evhist[Len(evhist)].a \in {"process", "reprocess"}
+          /\ evhist' = Append(evhist, [a |-> "wrap"])
+          /\ lastErr' = "none"
+          /\ UNCHANGED <<src, l1, hist, rel, ref, phase, pay, evals>>
+
+Next == Build \/ StartEval \/ DoProcess \/ DoProcessAgain \/ DoExec \/ DoAttach \/ DoWrap
 Spec == Init /\ [][Next]_vars
 
 (* ---------------- properties ---------------- *)
@@ -201,6 +210,15 @@ KF8Gone ==
         /\ ~IsErr(AsCoded)
         /\ AsCoded.paid = {n.name : n \in Reached(rel, FALSE)}
         /\ \A i \in DOMAIN AsCoded.hooks : AsCoded.hooks[i].ok
+
+\* finding F27: a materialization built on the tree process() returned must not adopt a transfer
+\* payload that was not made for caching (it would re-evaluate its source on every read)
+Wrapped == IF IsErr(AsCoded) THEN AsCoded ELSE MaterializedBy(AsCoded.t, "mw")
+Wrap2 == IF IsErr(Wrapped) THEN Wrapped ELSE Process(Wrapped, "none", AsCoded.paid)
+WrapSound ==
+    (phase = "eval" /\ evhist = <<>> /\ ~KF8(rel) /\ ~IsErr(AsCoded) /\ ~IsErr(Wrapped)) =>
+        /\ ~IsErr(Wrap2)
+        /\ Wrap2.weak = {}
 
 BDet == BagDet(rel, Env) /\ BagDet(rel, RevEnv(Env))
 LDet == ListDet(rel, Env) /\ ListDet(rel, RevEnv(Env))
